@@ -2585,7 +2585,11 @@ pub fn assign(env: &REnv, lhs: &EvaluatedLvalue, rt: Option<&ObjType>, rhs: Obj)
                     || Ok(unwrap_or_clone(ls)),
                     "Can't unpack into mismatched length",
                 ),
-                Obj::Seq(seq) => match seq.len() {
+                Obj::Seq(seq) => match match &seq {
+                    // strings destructure into characters, so the arity is the character count
+                    Seq::String(s) => Some(s.chars().count()),
+                    _ => seq.len(),
+                } {
                     Some(len) => assign_all(
                         env,
                         ss,
